@@ -72,33 +72,7 @@ func errKind(e string) string {
 	}
 }
 
-// ---- classifiers of known findings (predicates over the input) --------------
-
-func isDigits(s string) bool {
-	if s == "" {
-		return false
-	}
-	for i := 0; i < len(s); i++ {
-		if s[i] < '0' || s[i] > '9' {
-			return false
-		}
-	}
-	return true
-}
-
-// nlRemainder10: a well-formed NL code whose 11-test sum has remainder 10 and
-// whose ninth digit is 0 (the published test has no digit for remainder 10).
-func nlRemainder10(t tcase) bool {
-	c := t.Code
-	if t.CC != "NL" || len(c) != 12 || !isDigits(c[:9]) || c[9] != 'B' || !isDigits(c[10:]) {
-		return false
-	}
-	s := 0
-	for i := 0; i < 8; i++ {
-		s += (9 - i) * int(c[i]-'0')
-	}
-	return s%11 == 10 && c[8] == '0'
-}
+// ---- classifier of the known finding (a predicate over the input) -----------
 
 func cleanASCII(s string) string {
 	s = strings.ToUpper(s)
@@ -122,34 +96,27 @@ func prefixSet(rg *regime, country string) []string {
 	return set
 }
 
-// doubledPrefix: the cleaned code starts with two successive country prefixes.
-func doubledPrefix(rg *regime, t tcase) bool {
-	if rg.NoPrefix {
+// rewrittenPrefix: (GR) the identity's country is not the code the regime's
+// normaliser rewrites it to (EL) and the cleaned code, once the identity's own
+// leading prefixes (its country and the regime's alternative codes) are removed,
+// begins with that code: tax.NormalizeIdentity does not know the prefix on the
+// first pass, the country is then rewritten, and the second pass removes it.
+func rewrittenPrefix(rg *regime, t tcase) bool {
+	if !rg.Rewrites || t.Country == rg.CC {
 		return false
 	}
 	c := cleanASCII(t.Code)
-	set := prefixSet(rg, t.Country)
-	for _, p1 := range set {
-		for _, p2 := range set {
-			if p1 != "" && p2 != "" && strings.HasPrefix(c, p1+p2) {
-				return true
+	own := append([]string{t.Country}, rg.Alts...)
+	for again := true; again; {
+		again = false
+		for _, p := range own {
+			if p != "" && strings.HasPrefix(c, p) {
+				c = c[len(p):]
+				again = true
 			}
 		}
 	}
-	return false
-}
-
-// doubledSuffix: (CH) the cleaned code ends with two successive VAT suffixes.
-func doubledSuffix(rg *regime, t tcase) bool {
-	c := cleanASCII(t.Code)
-	for _, s1 := range rg.Suffixes {
-		for _, s2 := range rg.Suffixes {
-			if strings.HasSuffix(c, s1+s2) {
-				return true
-			}
-		}
-	}
-	return false
+	return strings.HasPrefix(c, rg.CC)
 }
 
 // ---- run ------------------------------------------------------------------------
@@ -233,7 +200,7 @@ func genRegime(r *rand.Rand, rg *regime, n int) []tcase {
 			case 5:
 				set := prefixSet(rg, country)
 				prefix = set[r.Intn(len(set))]
-			case 6: // doubled prefix (known finding territory)
+			case 6: // doubled prefix
 				set := prefixSet(rg, country)
 				prefix = set[r.Intn(len(set))] + set[r.Intn(len(set))]
 				stream = "variant-doubled-prefix"
@@ -343,13 +310,11 @@ func runCases(c *core.Ctx, byCC map[string]*regime, cases []tcase) int {
 				continue
 			}
 			if goOK != spec {
-				cls := ""
-				if nlRemainder10(t) {
-					cls = "nl-mod11-remainder-10"
-				}
+				// no known finding is left on the validation side: every disagreement with the
+				// national rule (NL remainder 10 included, fixed in the library) is a violation
 				what := fmt.Sprintf("%s code %q: Go validation %s (%s) but the national rule says %s (format %v; model %v)",
 					t.CC, t.Code, acc(goOK), x.idErr, acc(spec), format, model)
-				c.Fail(cls, what, map[string]any{"case": t, "go_error": x.idErr, "spec_accepts": spec, "model_accepts": model})
+				c.Fail("", what, map[string]any{"case": t, "go_error": x.idErr, "spec_accepts": spec, "model_accepts": model})
 				continue
 			}
 			if goOK != model {
@@ -370,14 +335,11 @@ func runCases(c *core.Ctx, byCC map[string]*regime, cases []tcase) int {
 			if i%9973 == 0 {
 				c.Sample(map[string]any{"regime": t.CC, "country": t.Country, "code": t.Code, "stream": t.Stream, "normalized": x.code1, "country_out": x.c1})
 			}
+			// the only known finding left on the normalisation side; doubled country
+			// prefixes and doubled CH suffixes are fixed in the library and are violations
 			known := ""
-			switch {
-			case doubledPrefix(rg, t):
-				known = "normalize-doubled-country-prefix"
-			case rg.Rewrites && t.Country != rg.CC && strings.HasPrefix(cleanASCII(t.Code), rg.CC):
+			if rewrittenPrefix(rg, t) {
 				known = "normalize-rewritten-country-prefix"
-			case doubledSuffix(rg, t):
-				known = "normalize-ch-doubled-suffix"
 			}
 			detail := map[string]any{"case": t, "first": x.code1, "second": x.code2, "base_normalized": x.bcode}
 			// idempotent
@@ -386,7 +348,7 @@ func runCases(c *core.Ctx, byCC map[string]*regime, cases []tcase) int {
 				c.Fail(known, fmt.Sprintf("normalisation of %s %q is not idempotent: %q then %q", t.Country, t.Code, x.code1, x.code2), detail)
 				continue
 			}
-			// insensitive to separators, case and one leading country prefix
+			// insensitive to separators, case and leading country prefixes
 			if t.Base != "" && (x.code1 != x.bcode || x.c1 != x.bc) {
 				c.Count("law-failed:insensitive", 1)
 				c.Fail(known, fmt.Sprintf("normalisation of %s %q gives %q but its clean form %q gives %q", t.Country, t.Code, x.code1, t.Base, x.bcode), detail)
